@@ -222,7 +222,7 @@ class Interposer(object):
 
 def prepare_dir(scn, d):
     """Create the initial state.  Returns (dest_path, part_path)."""
-    dest = os.path.join(d, 'dest.dat')
+    dest = os.path.join(d, scn.get('dest_name') or 'dest.dat')
     part = os.path.join(d, scn['part_file']) if scn.get('part_file') else dest + '.part'
     old_umask = os.umask(0)
     try:
@@ -333,6 +333,10 @@ def snapshot(d, dest, part):
             return {'bytes': data, 'mode': stat.S_IMODE(os.lstat(p).st_mode)}
         except FileNotFoundError:
             return None
+        except OSError as e:
+            if e.errno == errno.ENAMETOOLONG:
+                return None         # no file can exist under a name the file system cannot hold
+            raise
     return {'dest': rd(dest), 'part': rd(part),
             'listing': sorted(os.listdir(d))}
 
@@ -543,7 +547,7 @@ def parse_strace(text):
 def strace_run(scn, d, repo, inject=None, timeout=60):
     """Run the driver under strace.  inject = strace -e inject=... expression or None.
     Returns (returncode, trace_events, stdout)."""
-    dest = os.path.join(d, 'dest.dat')
+    dest = os.path.join(d, scn.get('dest_name') or 'dest.dat')
     part = os.path.join(d, scn['part_file']) if scn.get('part_file') else dest + '.part'
     tracefile = d + '.trace'
     cmd = ['strace', '-f', '-o', tracefile, '-s', '0', '-P', dest, '-P', part]
